@@ -45,6 +45,19 @@ type Env struct {
 	wg     sync.WaitGroup // native mode only
 	srv    *httptest.Server
 	hooks  *hooks
+	clis   []*cli
+}
+
+// finalize reads the call-option targets once everything is quiescent (reading
+// them while another client task is still inside the call would be a race of
+// the harness's own making).
+func (e *Env) finalize() {
+	for i, c := range e.clis {
+		if c != nil && i < len(e.rec.RPCs) {
+			e.rec.RPCs[i].OptHeader = mdStr(c.hdr)
+			e.rec.RPCs[i].OptTrailer = mdStr(c.trl)
+		}
+	}
 }
 
 // hooks lets a property's scenario builder observe extra things.
@@ -380,6 +393,7 @@ func (e *Env) runRPC(i int) {
 	rr := e.rec.RPCs[i]
 	tn := fmt.Sprintf("c%d", i)
 	c := &cli{}
+	e.clis[i] = c
 	if rpc.Kind != "unary" {
 		desc := &grpc.StreamDesc{StreamName: "M" + strconv.Itoa(i), ClientStreams: rpc.clientStreams(), ServerStreams: rpc.serverStreams()}
 		e.where("client:NewStream")
@@ -397,8 +411,6 @@ func (e *Env) runRPC(i int) {
 		e.goTask(tn+"b", func() { e.clientOps(i, tn+"b", c, rpc.Client2) })
 	}
 	e.clientOps(i, tn, c, rpc.Client)
-	rr.OptHeader = mdStr(c.hdr)
-	rr.OptTrailer = mdStr(c.trl)
 }
 
 // monitorPrefix checks, at a receive return, that what this side has received
@@ -438,6 +450,7 @@ func (e *Env) monitorBackpressure(i int, side string) {
 // setup builds the channel and service for the scenario.
 func (e *Env) setup() {
 	sc := e.sc
+	e.clis = make([]*cli, len(sc.RPCs))
 	e.rec.RPCs = make([]*RPCRec, len(sc.RPCs))
 	for i := range e.rec.RPCs {
 		e.rec.RPCs[i] = &RPCRec{}
